@@ -21,7 +21,10 @@ THEOREMS = ["DpapiNg.C06.blob_layout", "DpapiNg.C06.unpack_pack", "DpapiNg.C06.p
             # DPAPINGBlob.pack itself: the model is the interpretation of the regenerated pack plan (Gen.BPlanBlob_eq, Gen.BPlanSchema_eq)
             "DpapiNg.Blob.blobPack_eq_plan",
             # DPAPINGBlob.unpack itself: the model is the interpretation of the regenerated unpack plan (Gen.UPlanBlob_eq)
-            "DpapiNg.Blob.blobUnpack_eq_plan"]
+            "DpapiNg.Blob.blobUnpack_eq_plan", "DpapiNg.Blob.Blob.toVal_injective",
+            # the property at the level of the regenerated programs (Properties/C06Plan.lean)
+            "DpapiNg.C06.plan_layout", "DpapiNg.C06.plan_roundtrip"]
+MODULES = ["DpapiNg.Properties.C06", "DpapiNg.Properties.C06Plan"]
 RULE = ("blob values: key identifiers with boundary/random u32 fields and Unicode names, key_info sizes {0,1,32,33,100,524,800}, enc_content lengths "
         "{0,1,2,126,127,128,129,255,256,257,65535,65536,65537 (+2^24 thorough)}, enc_cek 0..72, parameters present/absent, both layouts; malformed: truncations / bit flips of emitted blobs; "
         "distinct by op line; non-trivial = a successful pack or unpack")
